@@ -3,7 +3,7 @@
    "qupulse's sympy-based evaluation returns `eval`" is NOT a theorem: sympy is the implementation, it is compared with
    `eval` by the correspondence check (Corr.v + harness). *)
 From Coq Require Import ZArith QArith List Bool NArith.
-Require Import QV.C12.Model QV.C12.Proofs.
+Require Import QV.C12.Model QV.C12.Proofs QV.C12.Proofs_vec QV.C12.ModelT QV.C12.ProofsT.
 Import ListNotations.
 
 (* evaluation depends only on the names that occur in the formula *)
@@ -87,10 +87,71 @@ Theorem C12_exact_rational_fragment : forall e r g, fns e = [] ->
 Proof. exact rational_fragment. Qed.
 Print Assumptions C12_exact_rational_fragment.
 
-(* array evaluation = map of scalar evaluation: stated, NOT proved (only tested: every array case compares the
-   broadcasting model `evalv` and the pointwise specification with the implementation) *)
-Definition C12_vector_statement : Prop :=
-  forall e r n v,
+(* array evaluation = map of scalar evaluation (numpy broadcasting of scalars against arrays of n sample points,
+   numpy.select per element, Sum with a scalar index): whenever the broadcasting evaluation succeeds, its element j is
+   the value of the formula in the scope seen by sample point j *)
+Theorem C12_vector : forall e r n v,
     (forall x l, asc r x = Some (VArr l) -> length l = n) ->
     evalv r e = Ok v ->
     forall j, (j < n)%nat -> exists q, vget v j = Some q /\ eval (proj r j) e = Ok q.
+Proof. exact evalv_pointwise. Qed.
+Print Assumptions C12_vector.
+
+(* ... and the result is a scalar or an array of exactly n elements *)
+Theorem C12_vector_shape : forall e r n v,
+    (forall x l, asc r x = Some (VArr l) -> length l = n) ->
+    evalv r e = Ok v -> match v with VQ _ => True | VArr l => length l = n end.
+Proof. exact evalv_shape. Qed.
+Print Assumptions C12_vector_shape.
+
+(* a scope without arrays: the broadcasting evaluation returns a scalar, the value of the formula *)
+Theorem C12_vector_scalar_scope : forall e r v,
+    (forall x l, asc r x <> Some (VArr l)) -> evalv r e = Ok v -> exists q, v = VQ q /\ eval (proj r 0) e = Ok q.
+Proof. exact evalv_scalar_scope. Qed.
+Print Assumptions C12_vector_scalar_scope.
+
+Theorem C12_vector_nonvacuous :
+  (forall x l, asc vec_r x = Some (VArr l) -> length l = 3%nat) /\
+  exists l, evalv vec_r vec_e = Ok (VArr l) /\ length l = 3%nat.
+Proof. exact vec_nonvacuous. Qed.
+Print Assumptions C12_vector_nonvacuous.
+
+(* the converse (pointwise values exist => the broadcasting evaluation succeeds) is NOT claimed: numpy evaluates every
+   Piecewise branch on the whole array, so shapes/errors of unselected branches matter (finding piecewise-eager) *)
+
+(* ---- value types: exact-rational mode (ModelT.v) ----------------------------------------------------------------- *)
+(* the typed evaluation computes exactly the value of `eval` (types are a refinement, they never change the value) *)
+Theorem C12_typed_erasure : forall e r, rfst (evalT r e) = eval (erase r) e.
+Proof. exact evalT_erase. Qed.
+Print Assumptions C12_typed_erasure.
+
+(* the static type over-approximation is sound *)
+Theorem C12_typed_poss : forall e r s sv v t, env_in r s sv -> evalT r e = Ok (v, t) -> In t (poss s sv e).
+Proof. exact evalT_poss. Qed.
+Print Assumptions C12_typed_poss.
+
+(* exact mode under the executable guard: the result is the exact rational value of the formula, of an exact type *)
+Theorem C12_exact_mode : forall e r s sv v t, env_in r s sv -> exact_guard s sv e = true ->
+  evalT r e = Ok (v, t) -> t <> TFloat /\ eval (erase r) e = Ok v.
+Proof. exact exact_mode_guarded. Qed.
+Print Assumptions C12_exact_mode.
+
+(* the unguarded statement ("exact inputs give an exact result"), kept type-checked: FALSE for Python arithmetic *)
+Definition C12_exact_mode_unguarded_statement : Prop :=
+  forall e r v t, exact_inputs_env r -> evalT r e = Ok (v, t) -> t <> TFloat.
+
+(* refutation (finding exact-int-div): a / b with the ints a = 1, b = 3 is the float 1/3 *)
+Theorem C12_exact_mode_refuted :
+  exact_inputs_env idiv_r /\ exists v, evalT idiv_r idiv_e = Ok (v, TFloat) /\ v == 1 # 3.
+Proof. exact exact_int_div_witness. Qed.
+Print Assumptions C12_exact_mode_refuted.
+
+Theorem C12_exact_guard_excludes_witness : exact_guard idiv_s idiv_s idiv_e = false.
+Proof. exact exact_guard_rejects_witness. Qed.
+Print Assumptions C12_exact_guard_excludes_witness.
+
+Theorem C12_exact_guard_nonvacuous :
+  exact_guard exact_s exact_s exact_e = true /\ env_in exact_r exact_s exact_s /\
+  exists v, evalT exact_r exact_e = Ok (v, TTime) /\ v == 13 # 6.
+Proof. exact exact_guard_nonvacuous. Qed.
+Print Assumptions C12_exact_guard_nonvacuous.
